@@ -6,7 +6,7 @@ from tools.harness.common import DIALECTS
 ID = 'C13'
 TARGETS = ['MindsVerif.Props.C13']
 THEOREMS = ['MindsVerif.Props.C13.' + n for n in (
-    'C13_lifting', 'C13_of_schemaOK', 'C13_partial', 'C13_trace', 'C13_no_none_call', 'phi13', 'phi13_rest',
+    'C13_lifting', 'C13_once', 'C13_unchanged', 'C13_of_schemaOK', 'C13_partial', 'C13_trace', 'C13_no_none_call', 'phi13', 'phi13_rest',
     'phi13_uniform', 'phi13_clean', 'C13_witness_join', 'C13_witness_select', 'C13_witness_update', 'C13_witness_cte',
     'C13_regress_coverage', 'C13_regress_window', 'C13_regress_cte')]
 ASSUME = [
